@@ -285,6 +285,20 @@ func (e *Encoder) stdlibCall(callee *ssa.Function, cm *ssa.CallCommon, args []Va
 			return Val{T: resT}, true
 		}
 		return Val{}, false
+	case n == "slices.Clone" && len(args) == 1:
+		// slices.Clone(s) (library model): no effect on existing memory; the result is a new array of len(s)
+		// elements (nil for a nil s). The copied contents are not tracked.
+		if _, ok := args[0].T.Underlying().(*types.Slice); !ok {
+			return Val{}, false
+		}
+		use()
+		loc := e.alloc(st)
+		ln := fmt.Sprintf("(slen %s)", args[0].S)
+		kp := c.fresh("clonecap")
+		c.declare(kp, c.idx())
+		c.assume(implies(pc, and(c.cmp("<=", intT, ln, kp), c.cmp("<", intT, kp, c.lit(intT, pow2(40))))))
+		res := fmt.Sprintf("(ite (= (sbase %s) lnil) (mkslice lnil %s %s %s) (mkslice %s %s %s %s))", args[0].S, c.idxLit(0), c.idxLit(0), c.idxLit(0), loc, c.idxLit(0), ln, kp)
+		return Val{T: resT, S: c.define("clone", "Slice", res)}, true
 	case n == "io.ReadFull" && len(args) == 2:
 		// io.ReadFull(r, buf) (trusted library contract): only buf's elements change; 0 <= n <= len(buf);
 		// err == nil exactly when n == len(buf). The reader's own state is the heap of an interface value: havoc.
